@@ -37,6 +37,7 @@ CMENU = [{'s': 'pass', 'ctc': 0}, {'s': 'fail', 'ctc': 0}, {'s': 'pass', 'ctc': 
 # a failing / erroring test with a non-ASCII name, for children whose stderr
 # is latin-1 (a legacy locale, PYTHONIOENCODING)
 LMENU = [{'s': 'fail', 'mn': 'caf\xe9'}, {'s': 'error', 'mn': 'gr\xf6\xdfe'}]
+SMENU = [{'s': 'fail', 'strv': '7 0 0'}, {'s': 'error', 'strv': '12 0 0'}, {'s': 'fail', 'strv': 'two  blanks   inside (x)'}]
 HMENU = [{'s': 'sub:1,1,0', 'subm': 'page one\x0cpage two\u2028three\x85four\x1cfive\x0bsix'}]
 DMENU = [{'dt': 'string', 's': 'fail', 'dk': 'diff'}, {'dt': 'file', 's': 'fail', 'dk': 'exc'},
          {'dt': 'string', 's': 'pass'}, {'dt': 'file', 's': 'pass'}]
@@ -80,7 +81,7 @@ def cases(tier, seed):
                 if rep == 2 and mode not in ('seq', 'j2'):
                     continue
                 yield ['BIG', [], {}, 0, 1 if mode in ('p', 'c+j2') else 0, rep, mode, nie]
-    menu = worlds.rot(MENU + DMENU + HMENU + CMENU, seed)
+    menu = worlds.rot(MENU + DMENU + HMENU + CMENU + SMENU, seed)
     for shape in ow.SHAPES:
         nslots = len(ow.SHAPES[shape][1])
         items = []
